@@ -194,6 +194,87 @@ def _get_spec(cfg, i, path):
     return (r1 & bit == bit) == want and (r1 & ~bit) == (r0 & ~bit)
 
 
+# ------------------------------------------------------------------ a collection that was observed is not silently changed by a reload (bounded, end to end)
+_RM = None
+
+
+def rmodel():
+    global _RM
+    if _RM is None:
+        db = orm.Database('sqlite', ':memory:')
+
+        class Parent(db.Entity):
+            children = orm.Set('Child')
+            tags = orm.Set('Tag')
+
+        class Child(db.Entity):
+            parent = orm.Optional(Parent)
+            v = orm.Optional(int)
+
+        class Tag(db.Entity):
+            parents = orm.Set(Parent)
+        db.generate_mapping(create_tables=True)
+        _RM = types.SimpleNamespace(db=db, Parent=Parent, Child=Child, Tag=Tag)
+    return _RM
+
+
+OBSERVE = {
+    'iterate': lambda p: sorted(c.id for c in p.children),
+    'len_then_iterate': lambda p: (len(p.children), sorted(c.id for c in p.children))[1],
+    'bool_then_iterate': lambda p: (bool(p.children), sorted(c.id for c in p.children))[1],
+    'copy': lambda p: sorted(c.id for c in p.children.copy()),
+    'prefetched_then_iterate': lambda p: (rmodel().Child.select()[:], sorted(c.id for c in p.children))[1],
+    'add_then_iterate': lambda p: (p.children.add(rmodel().Child[4]), sorted(c.id for c in p.children))[1],
+}
+CHANGES = {
+    'moved_to_other_parent': "update Child set parent = 2 where id = 2",
+    'detached': "update Child set parent = null where id = 2",
+    'moved_in': "update Child set parent = 1 where id = 3",
+    'value_only': "update Child set v = 99 where id = 2",
+}
+
+
+def _cr_configs(tier):
+    return [dict(observe=o, change=c) for o in OBSERVE for c in CHANGES]
+
+
+def _cr_case(cfg, values):
+    M = rmodel()
+
+    def setup(run): _reset()
+    def teardown(run):
+        try: orm.rollback()
+        except Exception: pass
+        _reset()
+
+    def call():
+        with orm.db_session:
+            for t in ('Child', 'Parent'): M.db.execute('delete from "%s"' % t)
+            M.db.execute("insert into Parent(id) values (1), (2)")
+            M.db.execute("insert into Child(id, parent, v) values (1, 1, 0), (2, 1, 0), (3, 2, 0), (4, null, 0)")
+        with orm.db_session:
+            p = M.Parent[1]
+            first = OBSERVE[cfg['observe']](p)
+            orm.flush()
+            M.db.execute(CHANGES[cfg['change']])                  # a change committed by somebody else, as this session's next reload will see it
+            try:
+                M.Child.select()[:]                               # every child row is loaded again
+                for c in list(M.Child.select()): c.parent
+                second = sorted(c.id for c in p.children)
+                outcome = 'same' if second == first else 'changed silently: %s -> %s' % (first, second)
+            except core.UnrepeatableReadError:
+                outcome = 'error'
+            orm.rollback()
+            return outcome
+    return Case(call, {}, [], setup, teardown)
+
+
+def _cr_spec(cfg, i, path):
+    if path.outcome != 'ret': return False
+    if cfg['change'] == 'value_only': return path.value == 'same'
+    return path.value in ('same', 'error')
+
+
 CONTRACTS = [
     Contract('Attribute.db_set', 'pony.orm.core:Attribute.db_set', _ds_configs, _ds_case,
              [('observed_value_replaced_only_by_equal_value_else_error', _ds_spec)], allowed_exc=(core.UnrepeatableReadError,), replay=False),
@@ -201,4 +282,8 @@ CONTRACTS = [
              [('row_refresh_never_replaces_an_observed_value', _row_spec)], allowed_exc=(core.UnrepeatableReadError,), replay=False),
     Contract('EntityMeta._initialize_bits_', 'pony.orm.core:EntityMeta._initialize_bits_', [dict()], _bits_case, [('volatile_attributes_have_no_repeatable_read_bit', _bits_spec)]),
     Contract('Attribute.__get__', 'pony.orm.core:Attribute.__get__', _get_configs, _get_case, [('read_bit_set_iff_not_written_and_not_volatile', _get_spec)]),
+    Contract('observed_collection', ['pony.orm.core:Set.copy', 'pony.orm.core:Set.load', 'pony.orm.core:SetInstance.__len__', 'pony.orm.core:Set.db_reverse_add',
+                                     'pony.orm.core:Set.db_reverse_remove', 'pony.orm.core:Attribute.db_set'], _cr_configs, _cr_case,
+             [('a_reload_never_changes_an_observed_collection_silently', _cr_spec)], level='bounded',
+             bound='one one-to-many collection; 6 ways of observing it (however it became loaded), 4 foreign changes seen by the next reload'),
 ]
